@@ -238,6 +238,33 @@ func checkC20(c *Ctx) {
 						g, _ = a.X.(*ssa.Global)
 					}
 				}
+			case ssa.CallInstruction:
+				// the address of a package-level variable of a scalar or pointer kind handed to a call
+				// (sync/atomic, a setter): the callee can write it
+				for ai, a := range x.Common().Args {
+					ga, ok := a.(*ssa.Global)
+					if !ok {
+						if fa, ok2 := a.(*ssa.FieldAddr); ok2 {
+							ga, ok = fa.X.(*ssa.Global)
+						}
+					}
+					if !ok || ga == nil || ga.Pkg == nil || ga.Pkg.Pkg.Path() != zygoPath {
+						continue
+					}
+					callee := x.Common().StaticCallee()
+					if callee != nil && fnPkgPath(callee) == "sync/atomic" && strings.HasPrefix(callee.Name(), "Load") {
+						continue
+					}
+					if callee != nil && fnPkgPath(callee) == zygoPath && ai < len(callee.Params) && paramOnlyRead(callee.Params[ai]) {
+						continue // the callee only reads through the pointer
+					}
+					if pt, ok := ga.Type().(*types.Pointer); ok {
+						switch pt.Elem().Underlying().(type) {
+						case *types.Basic, *types.Pointer:
+							g = ga
+						}
+					}
+				}
 			}
 			if g != nil && g.Pkg.Pkg.Path() == zygoPath {
 				if _, ok := globs[g.Name()]; !ok {
@@ -585,4 +612,28 @@ func allowedCategories(reason string) map[string]bool {
 		out[strings.TrimSpace(cat)] = true
 	}
 	return out
+}
+
+// paramOnlyRead: the pointer parameter is only loaded from and compared, never stored through or passed on.
+func paramOnlyRead(p *ssa.Parameter) bool {
+	refs := p.Referrers()
+	if refs == nil {
+		return true
+	}
+	for _, r := range *refs {
+		switch x := r.(type) {
+		case *ssa.UnOp:
+			if x.Op != token.MUL {
+				return false
+			}
+		case *ssa.BinOp:
+			if x.Op != token.EQL && x.Op != token.NEQ {
+				return false
+			}
+		case *ssa.DebugRef:
+		default:
+			return false
+		}
+	}
+	return true
 }
